@@ -91,8 +91,8 @@ impl<'h> FindMatchesImpl<'h> {
                 self.record_line_offset(i + self.offset, c);
             } else {
                 // The iterator is exhausted.
-                // We should update the line offsets with the last character of the haystack.
-                self.record_line_offset(self.last_position + self.offset, '\0');
+                // If the haystack ends with a newline, a new line starts at the end of the haystack.
+                self.record_line_offset(self.input.len(), '\0');
                 break;
             }
         }
